@@ -173,6 +173,40 @@ func wideCases() []*ProgCase {
 			add(fmt.Sprintf("wide/obj/%d", n), ref.Member(ref.Obj(fs, fv), "f"+strconv.Itoa(n-1)), nil)
 		}
 	}
+	// wide literals whose members are pushed without loading a constant or a
+	// variable: empty literals, zero-member objects, calls without arguments
+	for _, n := range []int{21, 22, 41, 42, 43, 44, 45, 64, 100, 542, 543, 544} {
+		n := n
+		empties := []func(int) *ref.E{
+			func(int) *ref.E { return ref.List() },
+			func(int) *ref.E { return ref.Map(nil, nil) },
+			func(i int) *ref.E {
+				if i%2 == 0 {
+					return ref.List()
+				}
+				return ref.List(ref.List())
+			},
+		}
+		for ei, el := range empties {
+			add(fmt.Sprintf("wide/empties/%d/%d", n, ei), ref.Call("len", wideList(n, el)), nil)
+			ks, vs := make([]*ref.E, n), make([]*ref.E, n)
+			for i := range ks {
+				ks[i], vs[i] = numLit(i), el(i)
+			}
+			add(fmt.Sprintf("wide/map-of-empties/%d/%d", n, ei), ref.Call("len", ref.Map(ks, vs)), nil)
+			fs, fv := make([]string, n), make([]*ref.E, n)
+			for i := range fs {
+				fs[i], fv[i] = "f"+strconv.Itoa(i), el(i)
+			}
+			add(fmt.Sprintf("wide/obj-of-empties/%d/%d", n, ei), ref.Call("len", ref.Member(ref.Obj(fs, fv), "f"+strconv.Itoa(n-1))), nil)
+		}
+		add(fmt.Sprintf("wide/empties-after-operands/%d", n), ref.CallF(ref.FInfix, "+", ref.Ident("n"), ref.Call("len", wideList(n, func(i int) *ref.E {
+			if i%3 == 0 {
+				return ref.List(ref.Ident("n"))
+			}
+			return ref.List()
+		}))), nil)
+	}
 	// a wide literal built while many other operands are live beneath it
 	for _, outer := range []int{41, 42, 43, 541, 542, 543, 544, 545, 1041, 1043} {
 		for _, inner := range []int{255, 256, 499, 500, 501, 502, 542, 543} {
